@@ -187,6 +187,9 @@ func ruleCleanerDeletes(c *Check, rWhat, rKeep, rNewest, rStale, rErrors, rDisab
 			continue
 		}
 		lists := callsOf(p, blobList)
+		if len(lists) == 0 && len(calls) == 0 && p.End == "return" && len(p.Rets) > 0 && !retIsNilErr(p) {
+			continue // refused before any storage call (a defensive check): nothing can be deleted
+		}
 		if len(lists) != 1 || lists[0].Args[2] != w+".prefix" {
 			bad++
 			c.Bad(rWhat, fnCleanerRun+"/listing", "the cleaner does not list exactly its own prefix w.prefix once", c.pathPos(p), nil)
